@@ -74,3 +74,14 @@ def header_ok(loops, seg):
 
 def entry_of(seg, w):
     return (seg_val(seg), w.seg_term, w.ele_term, w.subele_term, w.eol)
+
+
+def closes_through(loops, sid):
+    """after a trailer of kind K has been written no header of kind K (or deeper) stays open"""
+    if sid == 'IEA':
+        return len(loops) == 0
+    if sid == 'GE':
+        return len(loops) <= 1
+    if sid == 'SE':
+        return len(loops) <= 2
+    return True
